@@ -133,6 +133,13 @@ def branch_conditions(body):
         if t.kind != "switch" or blk.cleanup:
             continue
         e = strip_casts(expr_of(body, t.d[1]))
+        # `opt.is_some()` / `res.is_ok()` and `match opt { Some(..) => .. }` are the same test: compare the scrutinee
+        if e[0] == "call" and e[1] in ("core::option::Option::<T>::is_some", "core::option::Option::<T>::is_none",
+                                       "core::result::Result::<T, E>::is_ok", "core::result::Result::<T, E>::is_err") and e[2]:
+            inner0 = e[2][0]
+            while inner0[0] == "ref":
+                inner0 = inner0[1]
+            e = ("disc", inner0)
         if e[0] == "disc":
             inner = e[1]
             s = show(body, inner)
